@@ -20,6 +20,9 @@ import (
 type Gen struct {
 	R   Rand
 	Adv bool
+	// Plain: SetPath fills the leaf with an ordinary generated value instead of an extreme
+	// one (normal stream: every optional leaf of every kind gets exercised regularly)
+	Plain bool
 }
 
 func (g *Gen) chance(num, den int) bool { return g.R.Intn(den) < num }
@@ -694,6 +697,9 @@ func LeafPaths(t reflect.Type) [][]PathStep {
 func (g *Gen) extreme(t reflect.Type, ti TagInfo) interface{} {
 	for t.Kind() == reflect.Ptr {
 		t = t.Elem()
+	}
+	if g.Plain {
+		return g.Value(t, ti, 3)
 	}
 	switch t.Kind() {
 	case reflect.String:
